@@ -19,6 +19,24 @@ fn full_corpus() -> Vec<(String, PDU)> {
             v.push((format!("{n}/{cn}"), p));
         }
     }
+    // the other identifier widths (the header length the transport could be tempted to compute depends on them)
+    for (crc, cn) in [(CRCFlag::NotPresent, "nocrc"), (CRCFlag::Present, "crc")] {
+        for (n, mut p) in corpus(crc, FileSizeFlag::Small) {
+            if n != "eof" && n != "filedata" {
+                continue;
+            }
+            p.header.source_entity_id = cfdp_core::pdu::VariableID::from(0x0102_0304_0506_0708_u64);
+            p.header.destination_entity_id = cfdp_core::pdu::VariableID::from(0x1112_1314_1516_1718_u64);
+            p.header.transaction_sequence_number = cfdp_core::pdu::VariableID::from(0x21_u8);
+            v.push((format!("{n}/{cn}/id8"), p.clone()));
+            if n == "eof" {
+                p.header.source_entity_id = cfdp_core::pdu::VariableID::from(0x31_u8);
+                p.header.destination_entity_id = cfdp_core::pdu::VariableID::from(0x32_u8);
+                p.header.transaction_sequence_number = cfdp_core::pdu::VariableID::from(0x4142_4344_u32);
+                v.push((format!("{n}/{cn}/id1"), p));
+            }
+        }
+    }
     v
 }
 
